@@ -92,7 +92,7 @@ theorem findEarlierGo_spec : (fs : List Frag) → ∀ (bs : List PBox) (i : Nat)
               obtain ⟨rfl, rfl⟩ := h
               obtain ⟨hl, hp⟩ := findEarlierFrag_spec x b sub hgb hx x' r hfe
               refine ⟨0, some r, by rw [hxi]; rfl, by simp, ?_, ?_⟩
-              · simp only [fragLinesList, linesFromKids, List.append_nil]
+              · simp only [fragLinesList, linesFromKids, List.append_nil, fragLines_cutEnd]
                 rw [← List.append_assoc, hl]
               · simpa only [posKids] using hp
             · exact ⟨by simp, by simp⟩
